@@ -68,6 +68,16 @@ def apply_edits(text, edits, where, prov):
         cls = e["cls"]
         if cls not in EDIT_CLASSES:
             raise LostAnchor("%s: unknown edit class %s" % (where, cls))
+        if "find_re" in e:
+            rx = re.compile(e["find_re"])
+            got = len(rx.findall(text))
+            count = e.get("count", 1)
+            if got != count:
+                raise LostAnchor("%s: declared %s-site /%s/ found %d times, expected %d" % (where, cls, e["find_re"][:60], got, count))
+            sites = [m.group(0) for m in rx.finditer(text)]
+            text = rx.sub(e["replace"], text)
+            prov.append({"cls": cls, "find_re": e["find_re"], "sites": sites, "replace": e["replace"], "count": count, "why": e.get("why", "")})
+            continue
         find, repl, count = e["find"], e["replace"], e.get("count", 1)
         got = text.count(find)
         if got != count:
@@ -263,7 +273,7 @@ def find_loops(body):
     return res
 
 
-def splice_fn(item_text_sig, item_body, spec, where, prov, clause_lines):
+def splice_fn(item_text_sig, item_body, spec, where, prov, with_goals, goal_index):
     """Return list of (text, origin) chunks for one function with its contract spliced in."""
     sig = item_text_sig
     if spec.get("ret"):
@@ -286,6 +296,11 @@ def splice_fn(item_text_sig, item_body, spec, where, prov, clause_lines):
         for c in lst:
             if isinstance(c, str):
                 c = {"id": None, "text": c}
+            if c.get("goal_only"):
+                # known-finding goal: checked in a twin file only, so that no caller can rely on it
+                goal_index[c["id"]] = {"props": c.get("props"), "text": c["text"].strip(), "kind": kind}
+                if not with_goals:
+                    continue
             chunks.append(("        " + c["text"].strip().rstrip(",") + ",\n", ("clause", kind, c.get("id"), c.get("props"))))
 
     clauses("requires", spec.get("requires"))
@@ -356,8 +371,10 @@ def generics_use(g):
 
 
 class Unit:
-    def __init__(self, name, repo=None):
+    def __init__(self, name, repo=None, with_goals=False):
         self.name = name
+        self.with_goals = with_goals
+        self.goal_index = {}
         self.repo = repo or REPO
         self.path = os.path.join(VERIF, "contracts", "units", name + ".toml")
         self.cfg = tomllib.load(open(self.path, "rb"))
@@ -369,7 +386,20 @@ class Unit:
 
     def src(self, rel):
         if rel not in self.files:
-            self.files[rel] = SourceFile(os.path.join(self.repo, rel), rel)
+            if rel.startswith("@registry/"):
+                # external crate source, version taken from /repo/Cargo.lock (mirrored type definitions only)
+                _, crate, sub = rel.split("/", 2)
+                lock = open(os.path.join(self.repo, "Cargo.lock")).read()
+                m = re.search(r'name = "%s"\nversion = "([^"]+)"' % re.escape(crate), lock)
+                if not m:
+                    raise LostAnchor("crate %s not in Cargo.lock" % crate)
+                import glob as _g
+                c = _g.glob(os.path.expanduser("~/.cargo/registry/src/*/%s-%s/%s" % (crate, m.group(1), sub)))
+                if len(c) != 1:
+                    raise LostAnchor("registry source of %s %s not found" % (crate, m.group(1)))
+                self.files[rel] = SourceFile(c[0], "%s-%s/%s" % (crate, m.group(1), sub))
+            else:
+                self.files[rel] = SourceFile(os.path.join(self.repo, rel), rel)
         return self.files[rel]
 
     def include(self, em, rel, origin_kind):
@@ -422,7 +452,10 @@ class Unit:
                 sig = sig[m.end():]
             self.fn_props[label] = spec.get("props", [])
             body_line0 = it.src.count("\n", 0, it.body_open) + 1
-            chunks = splice_fn(sig, body, spec, where, prov, None)
+            gi = {}
+            chunks = splice_fn(sig, body, spec, where, prov, self.with_goals, gi)
+            for cid, c in gi.items():
+                self.goal_index[cid] = dict(c, fn=label, props=c['props'] or spec.get('props', []))
             for txt, org in chunks:
                 if org[0] == "body":
                     off = org[1]
